@@ -80,7 +80,7 @@ def and_(*args):
 
 
 @excel_helper(cse_params=(0, 1, 2), err_str_params=0)
-def if_(test, true_value, false_value=0):
+def if_(test, true_value, false_value=False):
     # Excel reference: https://support.microsoft.com/en-us/office/
     #   IF-function-69AED7C9-4E8A-4755-A9BC-AA8BBFF73BE2
     cleaned = _clean_logical(test)
